@@ -294,9 +294,18 @@ pub fn install_panic_hook() {
     HOOK.call_once(|| {
         let default = std::panic::take_hook();
         std::panic::set_hook(Box::new(move |info| {
+            // canonical path: a scratch copy of the repository (/tmp/.../repo/src/x.rs) reports
+            // the same site as /repo/src/x.rs
             let loc = info
                 .location()
-                .map(|l| format!("{}:{}", l.file(), l.line()))
+                .map(|l| {
+                    let f = l.file();
+                    let f = match f.rfind("/repo/") {
+                        Some(i) => format!("/repo/{}", &f[i + 6..]),
+                        None => f.to_string(),
+                    };
+                    format!("{}:{}", f, l.line())
+                })
                 .unwrap_or_else(|| "?".into());
             let msg = if let Some(s) = info.payload().downcast_ref::<&str>() {
                 s.to_string()
